@@ -218,6 +218,21 @@ CLAIMS = {
             "custom MIR rules: call-chain provenance, dominance-sensitive definitions, who-may-mutate, sibling comparator "
             "agreement, ADT declaration order",
             "3/C17"),
+    "C18": ("Decides on built MIR of emit_traceparent: in incoming_traceparent the sampler is called at one site, at most once, "
+            "only on the arm where get_active_traceparent().filter(Traceparent::is_valid) is None (is_valid requires trace id "
+            "AND span id) and under trace_flags.is_sampled(); the child arm builds Traceparent::new(active.trace_id, "
+            "Some(span_id), active.trace_flags & incoming) with the active tracestate and the active span id as parent; "
+            "incoming_traceparent has exactly four callers: the three open_* pass None (flags ALL/ALL/EMPTY) and "
+            "TraceparentFilter::matches passes its own sampler only under is_span_filter(); the filter returns the incoming "
+            "is_sampled() for spans and true otherwise; InSampledTraceFilter returns the active flag else its default; enter and "
+            "exit both store set_active_traceparent(frame.slot.take()) back into frame.slot under frame.active and forward once "
+            "to the inner ctxt; set_active_traceparent is mem::replace on the thread-local returning the previous value; frames "
+            "carry slot/active/inner consistently; with_current synthesises SpanCtxt(trace_id, span_parent, span_id) only when "
+            "sampled, else empty; ExcludeTraceparentProps drops the three id keys under `check`. 'Exactly once per trace' "
+            "across threads follows from these + C03 (paper step).",
+            "custom MIR rules: guard edges and closure return provenance, who-may-call with argument shape, field-write "
+            "provenance, aggregate field origins",
+            "3/C18"),
 }
 
 REASONS_NOT_YET = "check not built yet (build in progress; DESIGN.md section 3 lists the planned rules)"
